@@ -222,7 +222,7 @@ def designPtsOld {α : Type} (dflt : List (α × α)) : DCArg α → Except Unit
 /-! ### curves handed to matplotlib by the other plot functions -/
 
 /-- `np.linspace(a, b, num)` (endpoint included), operation by operation as numpy computes it -/
-def linspaceEnd (a b : Float) (num : Nat) : List Float :=
+def linspaceEndF (a b : Float) (num : Nat) : List Float :=
   if num = 0 then [] else
   if num = 1 then [a] else
   let div := Float.ofNat (num - 1)
